@@ -153,6 +153,14 @@ if THOROUGH:
         (4, 5): -0.04, (4, 6): 0.06, (5, 6): -0.03})))
 ISO_IDS = [NSTROH, NSTROH + 1]
 STROH_IDS = [i for i in range(len(MATS)) if i not in ISO_IDS]
+# nearly but not exactly isotropic media: whatever the solver ACCEPTS there must still satisfy the statement (the limit
+# clause of the statement: 'approaches the closed-form isotropic solution as the anisotropy vanishes')
+NEAR_DELTAS = [1e-5, -1e-6, 1e-7, -1e-8, 1e-9, -1e-10, 1e-11, -1e-12, 1e-13]
+NEAR_IDS = []
+for d in NEAR_DELTAS:
+    NEAR_IDS.append(len(MATS))
+    MATS.append(('cubic-A=1%+.0e' % d, cubic(1.7, 0.9, 0.4 * (1 + d))))
+STROH_IDS = [i for i in STROH_IDS if i not in NEAR_IDS]
 for _n, _C in MATS:
     assert np.linalg.eigvalsh(_C).min() > 0.05, _n
 CMAX = max(np.abs(C).max() for _, C in MATS)
@@ -266,6 +274,12 @@ def setup(case, iso=False):
         if o[1] != 'none':
             kw[o[1]] = o[2]
         b_cart = b_in
+        if case.get('box'):
+            # orientation by a rotation AND a cell: the Burgers vector is a crystal vector of that cell (documented: box
+            # is 'the unit cell's box that crystal vectors are taken with respect to'); same Cartesian vector as before
+            V = [ORTV, HEXV][case['box'] - 1]
+            kw['box'] = am.Box(vects=V)
+            b_in = b_cart @ np.linalg.inv(V)
     else:
         vects = o[1]
         xi_c = v4to3(o[2]) @ vects
@@ -724,6 +738,52 @@ def limit(case):
     return fails
 
 
+@chk.clause('neardeg')
+def neardeg(case):
+    """cubic A = 1+delta with |delta| down to 1e-13, through Stroh and through solve_volterra_dislocation: a refusal is
+    accepted (documented: Stroh raises for degenerate roots and the dispatcher then needs exactly isotropic constants),
+    an accepted problem is judged against the closed form of the A = 1 medium with relative error 2 max(|delta|, 1e-6)
+    and has to carry the Burgers vector across the cut"""
+    e = setup(case, True)
+    d = max(abs(NEAR_DELTAS[NEAR_IDS.index(case['mat'])]), 1e-6)
+    try:
+        sol = solve(case['solver'], e)
+    except ValueError:
+        chk.note('neardeg-refused-' + case['solver'])
+        return []
+    chk.note('neardeg-accepted-' + type(sol).__name__)
+    chk.note('solved')
+    mu, nu = iso_mu_nu(cubic(*ISO_BASE))
+    P = lab_points(e, GRID)
+    uc, ec, sc = closed_form_lab(e, mu, nu, P)
+    r = GRID[:, 0][:, None, None]
+    fails = []
+    for name, a, c in (('strain', sol.strain(P), ec), ('stress', sol.stress(P), sc)):
+        ratio = worst((a - c) * r) / (d * worst(c * r))
+        if not ratio <= 2.0:
+            fails.append(Fail(key='neardeg-' + name, msg='%s of the accepted nearly isotropic problem differs from the isotropic closed form: '
+                              'error/(max(|A-1|,1e-6) max) = %.3g' % (name, ratio), delta=d))
+    u = sol.displacement(P)
+    ratio = worst((u - u[0]) - (uc - uc[0])) / (d * worst(uc - uc[0]))
+    if not ratio <= 2.0:
+        fails.append(Fail(key='neardeg-displacement', msg='displacement of the accepted nearly isotropic problem differs from the closed form: ratio %.3g' % ratio, delta=d))
+    # jump across the cut half-plane (-m side): u(just above) - u(just below) = b
+    bs = np.linalg.norm(e['b_lab'])
+    base = -np.array(RS)[:, None] * e['m']
+    jump = np.asarray(sol.displacement(base + EPS * e['n'])) - np.asarray(sol.displacement(base - EPS * e['n']))
+    if not worst(jump - e['b_lab']) <= 1e-6 * bs:
+        fails.append(Fail(key='neardeg-jump', msg='displacement jump across the cut half plane of the accepted nearly isotropic problem is not '
+                          'the Burgers vector', observed=jump[0], expected=e['b_lab']))
+    # energy coefficient tensor: diag(mu/(1-nu), mu/(1-nu), mu) in the (m, n, xi) frame
+    K = np.asarray(sol.K_tensor)
+    B = np.array([e['m'], e['n'], e['xi']])
+    Kexp = B.T @ np.diag([mu / (1 - nu), mu / (1 - nu), mu]) @ B
+    if not worst(K - Kexp) <= 2 * d * mu / (1 - nu):
+        fails.append(Fail(key='neardeg-K', msg='K_tensor of the accepted nearly isotropic problem differs from the isotropic one by %.3g' % worst(K - Kexp),
+                          observed=K, expected=Kexp))
+    chk.note('points', 3 * NP_)
+    return fails
+
 
 # --------------------------------------------------------------------------
 # linearity in the Burgers vector: the statement quantifies over ALL Burgers vectors, so a vector given in metres
@@ -862,6 +922,9 @@ def gen():
                 for ki in range(len(MN)):
                     case = {'solver': solver, 'mat': mi, 'ori': oi, 'b': bi, 'mn': ki}
                     yield 'fields', case
+                    if ORIENT[oi][0] == 'T' and ki in (0, 4):
+                        for bx in (1, 2):
+                            yield 'fields', dict(case, box=bx)
                     yield 'covar', case
                     if ki in (0, 3, 7) or THOROUGH:
                         yield 'scale', case
@@ -879,6 +942,17 @@ def gen():
                     continue
                 for ki in range(len(MN)):
                     yield 'limit', {'mat': mi, 'ori': oi, 'b': bi, 'mn': ki}
+
+
+def gen_neardeg():
+    for mi in NEAR_IDS:
+        for oi in range(len(ORIENT)):
+            for bi in range(nburg(oi, True)):
+                if ORIENT[oi][0] == 'M' and _miller_b_out_of_plane(oi, bi):
+                    continue
+                for ki in ((0, 1, 4) if not THOROUGH else range(len(MN))):
+                    for solver in ('stroh', 'auto'):
+                        yield 'neardeg', {'solver': solver, 'mat': mi, 'ori': oi, 'b': bi, 'mn': ki}
 
 
 def _miller_b_out_of_plane(oi, bi):
@@ -903,6 +977,7 @@ def miller_transform(case):
 
 def gen_all():
     yield from gen()
+    yield from gen_neardeg()
     for oi in range(len(ORIENT)):
         if ORIENT[oi][0] == 'M':
             for ki in range(len(MN)):
